@@ -4,12 +4,12 @@ CONSTANTS
   NChunks = 2
   CS = 2
   NGets = 2
-  Ranges <- EdgeRanges
+  Ranges <- AllRanges
   Plays <- NoPlay
   Forces <- NoForce
   MaxInv = 1
-  MaxTrim = 1
-  MaxFail = 1
+  MaxTrim = 0
+  MaxFail = 0
   Age <- AllOld
   FixAwait = TRUE
   FixPublish = TRUE
